@@ -79,7 +79,21 @@ def check_c09(out: Outcome):
             want_reject = it["extra"]["acc_expect"] == "reject"
             it["extra"]["acc_replay"] = {"compiles": compiles, "diagnostics": diag[-600:]}
             it["extra"]["reproduced_by_compilation"] = (compiles == want_reject)
-    report_violations_acc(out, items)
+    # every declaration of the stage-2 corpus is rule-valid by construction (asserted when the corpus is built): each must be accepted
+    cprogs = [p for p in corpus.all_programs(out.tier, out.seed) if p.structs]
+    cverdict, _ = acc.classify(work, "corpus", cprogs, lambda p: p.decl_text())
+    for p in cprogs:
+        okc = cverdict[p.pid] is None
+        ob = f"C09/corpus/{p.pid}/" + _norm_decl(p.structs[-1].decl())[:160]
+        out.add_ob(ob, "accept", "rustc + real macro vs. rule oracle (corpus declaration)", okc)
+        if not okc:
+            items.append({"obligation": ob, "detail": "a rule-valid corpus declaration is rejected: " + cverdict[p.pid][0]["message"][:200],
+                          "program_text": p.decl_text(), "verifier_output": {"rustc": cverdict[p.pid][0]}, "inputs": None, "src": None,
+                          "extra": {"acc_expect": "accept", "acc_declaration": p.decl_text(), "reproduced_by_compilation": True}})
+    out.programs += len(cprogs)
+    report_violations_acc(out, items[:16])
+    if len(items) > 16:
+        out.extra["further_failed_obligations"] = [i["obligation"] for i in items[16:]]
     gen.add_obligations(out, "C09")
     return finish(out, "translation_validation", RUSTC_CMD + "; accepted declarations: " + C_KANI,
                   explanation="bounded accept/reject enumeration against the rule of C09 + Kani proof of exactness/totality for accepted declarations")
@@ -151,6 +165,7 @@ def _inventory(out, prop, progs, tag):
     dumps, errs = xrun.dump_expansions(work, progs)
     if errs:
         raise xrun.Infra(f"corpus declarations for {prop} do not compile: " + json.dumps(errs)[:1200])
+    xrun.bind_rawnames(progs, dumps)
     ann = xrun.annotate(work, progs, dumps, {})
     return work, {t: a[1] for t, a in ann.items()}
 
